@@ -16,7 +16,9 @@ import (
 
 // reviewed exceptions: obligations the provers cannot reach; each is one named construct
 // with a one-line reason.  They are counted separately and are NOT covered by the claim.
-var reviewedExceptions = map[string]string{}
+var reviewedExceptions = map[string]string{
+	"G2|(*journal.Trip).update|slice trip.StopTimes[:len(p.past)+len(p.updated)]": "partition invariant of createPartition: past = stopTimes[:first] and updated holds pointers to distinct elements of stopTimes[first:], so len(past)+len(updated) <= len(stopTimes); an invariant relating two slices and a count, beyond E2",
+}
 
 func (c *Ctx) applyException(o *Obligation) {
 	if o.Status == Proved {
